@@ -541,7 +541,7 @@ class Node:
                                      peer.port))
             except socket.error as e:
                 if e.args[0] != errno.EINPROGRESS:
-                    self.remove_peer_connection(
+                    self.close_connection_socket(
                         conn, DISCONNECT_REASON_SOCKET_FAIL)
                     return
                 self.logger.warning(f"{conn} socket not yet ready, waiting")
@@ -568,7 +568,7 @@ class Node:
                 peer_socket.connectx(connect_addr)
             except socket.error as e:
                 if e.args[0] != errno.EINPROGRESS:
-                    self.remove_peer_connection(
+                    self.close_connection_socket(
                         conn, DISCONNECT_REASON_SOCKET_FAIL)
                     return
                 self.logger.warning(f"{conn} socket not yet ready, waiting")
